@@ -2,12 +2,15 @@
 observation record per step boundary.  Same record layout as rust/harness/src/machine.rs.
 
 scenario = {"prog": {...c12_rom program spec...}, "imr0", "isr0", "f0", "mti", "sti", "steps",
-            "events": [[step_index, kind, arg], ...]}
+            "events": [[step_index, kind, arg], ...],
+            optional: "bp0"/"px0"/"py0" (initial IMEM base pointer / index registers), "imfill" (seed of a
+            pattern written to the user IMEM 00-EB), "kbirq" (keyboard-interrupt enable of the machine)}
 kinds: key_down/key_up/key_inject (arg = key name), on_down, on_up.
 
 Observation: {"pc","s","f","ba","i","x","y","u","imr","isr","pw" (0 running, 1 halted, 2 off), "ic" (instructions
 executed), "cyc", "irq" (model's own delivery counter), "inint", "pend", "lat", "nm","ns" (next timer targets),
-"src" (model's last delivered source), "stk" (hex of STACK_WINDOW bytes below the initial S)}.
+"src" (model's last delivered source), "stk" (hex of STACK_WINDOW bytes below the initial S), "im" (hex of the
+internal-memory bytes IM_LO..IM_HI-1: user RAM and BP/PX/PY)}.
 run() returns {"obs0": record after setup, "steps": [{"b": record after host events (only when events were
 applied), "a": record after the step, "dl": [[addr, value, isr_now, imr_now], ...] stack-window writes during the
 step (Python only; lets the monitor see the ISR/IMR bytes at the instant of the frame push)}], "err": str|None}.
@@ -68,6 +71,14 @@ class PyMachine:
         # strobe every keyboard column so that key presses are visible to the matrix scan
         mem.write_byte(INT + 0xF0, 0xFF)
         mem.write_byte(INT + 0xF1, 0x07)
+        # initial internal memory of the interrupted program: pattern-filled user RAM, BP / PX / PY
+        for off, data in R.imem_init(sc):
+            for i, b in enumerate(data):
+                mem.write_byte(INT + off + i, b)
+        if sc.get("kbirq") is not None:
+            # keyboard-interrupt enable of the machine: a snapshot field restored by load_snapshot(); set directly
+            # the way pce500/tests/test_snapshot_roundtrip.py does
+            emu._kb_irq_enabled = bool(sc["kbirq"])
         mem.write_byte(INT + R.ISR, int(sc.get("isr0", 0)) & 0xFF)
         mem.write_byte(INT + R.IMR, int(sc.get("imr0", 0)) & 0xFF)
         self.lo = R.STACK_TOP - R.STACK_WINDOW
@@ -102,6 +113,7 @@ class PyMachine:
             "nm": int(emu._timer_next_mti), "ns": int(emu._timer_next_sti),
             "src": emu.last_irq.get("src"),
             "stk": bytes(ext[self.lo:self.hi]).hex(),
+            "im": bytes(ext[n - 256 + R.IM_LO:n - 256 + R.IM_HI]).hex(),
         }
 
     def event(self, kind: str, arg: Any) -> None:
